@@ -5,6 +5,11 @@ Property theorems only (helpers are in `Gotlcp.Lemmas.Negotiate`).  Every statem
 quantifies over ALL pairs of configurations: `CipherSuites` and `NextProtos` lists of any
 length, content and order, any number of certificates, any version window, every policy,
 key type and CA combination, with or without `Clone()`; and over both stacks (`st`).
+The history theorems (`C01_history*`) in addition quantify over ALL histories: any number of
+connections between the same two parties, with any reconfiguration (`Reconf`: enabled suites
+and protocols of either side, Clone(), the server's use of its session cache) between any
+two of them; they are proved by induction on the history with an invariant on what the two
+session caches hold.
 
 The model is `Gotlcp.Model.Negotiate` instantiated with the tables and code shapes
 regenerated from the Go source (`factsP st`, from `Gotlcp.Facts`); the spec
@@ -12,6 +17,7 @@ regenerated from the Go source (`factsP st`, from `Gotlcp.Facts`); the spec
 from the documentation and mentions no fact.
 -/
 import Gotlcp.Lemmas.Negotiate
+import Gotlcp.Lemmas.NegotiateHistory
 import Gotlcp.Model.NegotiateFacts
 
 set_option linter.unusedSimpArgs false
@@ -30,8 +36,9 @@ table, the preference order, the suite table with its flags, the ECDHE ids of th
 numeric order of the policies, `requiresClientCert`, the iteration shapes of
 `selectCipherSuite` / `pickCipherSuite` / `makeClientHello` / `negotiateALPN`, the ECDHE
 policy override, the request and verification thresholds, the repaired certificate list of
-the client (F36), the Clone field sets — for both stacks; nothing the extractor looked for
-is missing. -/
+the client (F36), the guards of `checkForResumption` (policy, version, the suite still offered
+by the client and still enabled by the configuration in use), the Clone field sets — for both
+stacks; nothing the extractor looked for is missing. -/
 theorem C01_facts :
     tlcpParams = refParams ∧ dtlcpParams = refParams ∧
     Facts.tlcp.negPrefListFromOrder = true ∧ Facts.dtlcp.negPrefListFromOrder = true ∧
@@ -42,6 +49,7 @@ theorem C01_facts :
     Facts.tlcp.negVerifyFromIfGiven = true ∧ Facts.dtlcp.negVerifyFromIfGiven = true ∧
     Facts.tlcp.negResumePolicyGuards = true ∧ Facts.dtlcp.negResumePolicyGuards = true ∧
     Facts.tlcp.negResumeReprocessesCerts = true ∧ Facts.dtlcp.negResumeReprocessesCerts = true ∧
+    Facts.tlcp.negResumeSuiteGuards = true ∧ Facts.dtlcp.negResumeSuiteGuards = true ∧
     Facts.tlcp.VersionTLCP = docVersion ∧ Facts.dtlcp.VersionTLCP = docVersion ∧
     Facts.missing = [] := by
   decide
@@ -114,6 +122,69 @@ theorem C01_next_connection (st : Stack) (c : ClientCfg) (s : ServerCfg) (h : co
   · intro h1 h2 h3
     unfold resumable
     cases ha : s.auth <;> simp_all
+
+/-! ### histories: any number of connections, reconfigurations in between -/
+
+/-- EVERY connection of EVERY history between two parties is as the spec prescribes
+(`historyOK`, `connOK`): starting with empty session caches, whatever the sequence of
+reconfigurations, each connection succeeds iff the configurations then in use are compatible,
+and is either a full handshake reporting exactly what a first connection of these
+configurations reports, or the resumption of the most recent full handshake with that
+session's suite — still enabled and keyed on both sides of the configurations in use — and
+certificates, a freshly negotiated application protocol, and a session cache on both sides. -/
+theorem C01_history (st : Stack) (c : ClientCfg) (s : ServerCfg) (rs : List Reconf) :
+    historyOK c s none rs ((runHistory (factsP st) c s {} rs).map outcome) = true := by
+  rw [factsP_eq]
+  exact history_ref c s rs {} none (Or.inl rfl)
+
+/-- The same, spelled out for the `i`-th connection: it succeeds iff its configurations are
+compatible; then both ends agree on version 0x0101, suite, protocol and resumption flag, the
+suite is one both configurations in use enable and have keys for, the protocol is what the
+ALPN rule selects for the lists in use; a connection that is not a resumption reports exactly
+`expected` (so its suite is the first mutual one); a resumption needs a cache on both sides
+and repeats suite and certificates of an EARLIER full handshake `j < i` of the same history. -/
+theorem C01_history_each (st : Stack) (c0 : ClientCfg) (s0 : ServerCfg) (rs : List Reconf)
+    (i : Nat) (r : Reconf) (x : Option Agreed) (hr : rs[i]? = some r)
+    (hx : ((runHistory (factsP st) c0 s0 {} rs).map outcome)[i]? = some x) :
+    (x.isSome = true ↔ compatible (r.client c0) (r.server s0) = true) ∧
+    ∀ a, x = some a →
+      a.client.vers = docVersion ∧ viewsAgree a = true ∧
+      usable (r.client c0) (r.server s0) a.client.suite = true ∧
+      alpnRule (r.server s0).alpn (r.client c0).alpn = some a.client.alpn ∧
+      ((a.client.resumed || a.server.resumed) = false → a = expected (r.client c0) (r.server s0)) ∧
+      ((a.client.resumed || a.server.resumed) = true →
+        (r.client c0).cache = true ∧ (r.server s0).cache = true ∧
+        ∃ j b, j < i ∧ ((runHistory (factsP st) c0 s0 {} rs).map outcome)[j]? = some (some b) ∧
+          (b.client.resumed || b.server.resumed) = false ∧
+          a = resumedFrom b (r.client c0) (r.server s0)) := by
+  obtain ⟨o', hok, hfrom⟩ := historyOK_nth c0 s0 rs none _ (C01_history st c0 s0 rs) i r x hr hx
+  cases x with
+  | none =>
+    refine ⟨?_, fun a h => by cases h⟩
+    have : compatible (r.client c0) (r.server s0) = false := by simpa [connOK] using hok
+    simp [this]
+  | some a =>
+    obtain ⟨h1, h2, h3, h4, h5, h6, h7⟩ := connOK_some _ _ _ _ hok
+    refine ⟨by simp [h1], fun a' ha' => ?_⟩
+    cases ha'
+    refine ⟨h2, h3, h4, h5, h6, fun hres => ?_⟩
+    obtain ⟨hc, hs, b, hb, hab⟩ := h7 hres
+    refine ⟨hc, hs, ?_⟩
+    rcases hfrom b hb with hn | ⟨j, hj, hxj, hnr⟩
+    · cases hn
+    · exact ⟨j, b, hj, hxj, hnr, hab⟩
+
+/-- Without reconfiguration — the same two compatible configurations connecting `n + 1`
+times, for every `n` — the first connection reports `expected`, and EVERY later one
+`expectedNext`: it succeeds with the same suite, protocol and certificates, resumed exactly
+when `resumable` (both sides cache and the policy admits the recorded session). -/
+theorem C01_history_constant (st : Stack) (c : ClientCfg) (s : ServerCfg) (r : Reconf) (n : Nat)
+    (h : compatible (r.client c) (r.server s) = true) :
+    runHistory (factsP st) c s {} (List.replicate (n + 1) r) =
+      .ok (expected (r.client c) (r.server s)) ::
+        List.replicate n (.ok (expectedNext (r.client c) (r.server s))) := by
+  rw [factsP_eq]
+  exact constant_history c s r n h
 
 /-! ### the suite is the first mutual one in the documented priority order -/
 
@@ -280,6 +351,43 @@ example : failureOf (negotiate refParams { suites := some [0xe051], nCerts := 2,
     compatible { suites := some [0xe051], nCerts := 2, family := .other } { cas := .root } = false := by decide
 example : failureOf (negotiate refParams { suites := some [0xe051], nCerts := 1, getKECert := true, family := .other } { cas := .root }) = some .ecdheCerts ∧
     compatible { suites := some [0xe051], nCerts := 1, getKECert := true, family := .other } { cas := .root } = false := by decide
+
+/-! ### histories: non-vacuity and the two defect classes the history theorems exclude -/
+
+/-- five connections of two caching defaults: full, then four resumptions -/
+example :
+    (runHistory refParams { cache := true } {} {} (List.replicate 5 { scache := true })).map
+      (fun r => (outcome r).map fun a => (a.client.suite, a.client.resumed)) =
+    [some (0xe053, false), some (0xe053, true), some (0xe053, true), some (0xe053, true), some (0xe053, true)] := by
+  decide
+
+/-- the server is reconfigured (a Clone sharing the cache) to CBC only: the GCM session is not
+resumed, the connection is a full handshake with the suite both sides now enable; switching
+back resumes the CBC session because it is still enabled; a server without any common suite
+is refused and the client forgets the session, so the next connection is full again -/
+example :
+    (runHistory refParams { cache := true } {} {}
+      [{ scache := true }, { scache := true, ss := some [0xe013], sclone := true }, { scache := true },
+       { scache := true, ss := some [0xe051] }, { scache := true }]).map
+      (fun r => (outcome r).map fun a => (a.client.suite, a.client.resumed)) =
+    [some (0xe053, false), some (0xe013, false), some (0xe013, true), none, some (0xe053, false)] := by
+  decide
+
+/-- a model whose `checkForResumption` lost its suite guards (`resumeSuiteGuards := false`)
+resumes the GCM session under a configuration that enables CBC only — and the spec rejects
+that history, while it accepts the one of the code as it is -/
+example :
+    let rs : List Reconf := [{ scache := true }, { scache := true, ss := some [0xe013] }]
+    historyOK { cache := true } {} none rs
+      ((runHistory { refParams with resumeSuiteGuards := false } { cache := true } {} {} rs).map outcome) = false ∧
+    historyOK { cache := true } {} none rs ((runHistory refParams { cache := true } {} {} rs).map outcome) = true := by
+  decide
+
+/-- the spec rejects a history whose third connection fails although nothing changed -/
+example :
+    historyOK { cache := true } {} none (List.replicate 3 { scache := true })
+      [some (expected { cache := true } { cache := true }), some (expectedNext { cache := true } { cache := true }), none] = false := by
+  decide
 
 /-! ### finding F36 (repaired): the unrepaired client breaks `C01_success_iff_compatible` -/
 
